@@ -61,7 +61,9 @@ def cases(draw):
     pts.append([draw(gen.metric_names(max_tokens=4)), ts, draw(values())])
   return {'protocol': draw(st.sampled_from(['pickle', 'line'])), 'points': pts,
           'batch': draw(st.one_of(st.integers(1, n + 1), st.sampled_from([1, 2, 3, 500]))),
-          'cuts': draw(st.lists(st.integers(1, 4000), max_size=8))}
+          'cuts': draw(st.lists(st.integers(1, 4000), max_size=8)),
+          # a TCP-like transport that pauses its producer from inside write() once this many bytes are pending
+          'pause_after': draw(st.sampled_from([None, None, 40, 300, 4000]))}
 
 
 def execute(ctx, case):
@@ -86,12 +88,17 @@ def execute(ctx, case):
       def countDestinations(self):
         return 1
     factory = cls(('10.0.0.9', 2004, 'a'), Router())
+    sim.pause_threshold = case.get('pause_after')
     factory.startConnecting()
     conn = sim.connectors[-1]
     conn.sim_connected()
     for name, ts, val in case['points']:
       factory.sendDatapoint(name, (ts, val))
     sim.settle(horizon=1.0)
+    for _ in range(len(case['points']) * 4 + 10):
+      if not conn.transport.drain():      # the peer reads, the transport lets the producer go on
+        break
+      sim.settle(horizon=1.0)
     if factory.queue:
       ctx.fail('C15:queue-not-transmitted', 'connected, timers settled, %d datapoints still queued' % len(factory.queue), case)
       return
@@ -160,10 +167,12 @@ def execute(ctx, case):
       return
   big = any(isinstance(v, float) and (0 < abs(v) < 1e-6 or (abs(v) > 1e15 and math.isfinite(v))) for _, _, v in pts)
   fts = any(isinstance(t, float) and t != int(t) for _, t, _ in pts)
+  pushed = getattr(conn.transport, 'pushed_back', 0)
   ctx.note(case, nontrivial=nmsg >= 2 and (big or fts), classes=[proto, 'messages>=2' if nmsg >= 2 else 'one message'] +
+           (['transport pushed back mid-stream'] if pushed else []) +
            (['extreme magnitude'] if big else []) + (['fractional timestamp'] if fts else []) +
            (['known finding: 5e-11 + half ulp band'] if known_band else []))
 
 
 def run(ctx):
-  run_given(ctx, cases(), execute, ctx.scale(750, 5000), salt=1)
+  run_given(ctx, cases(), execute, ctx.scale(600, 5000), salt=1)
